@@ -3,6 +3,7 @@ package c24
 
 import (
 	"encoding/json"
+	"fmt"
 	"html"
 	"strings"
 	"testing"
@@ -27,7 +28,12 @@ type Case struct {
 func mk(s, fn string) Case { return Case{S: s, B: []byte(s), Func: fn} }
 
 // judge returns "" when the property holds for the case.
-func judge(c Case) string {
+func judge(c Case) (msg string) {
+	defer func() {
+		if e := recover(); e != nil {
+			msg = fmt.Sprintf("%s panicked: %v", c.Func, e)
+		}
+	}()
 	s := string(c.B)
 	var got string
 	switch c.Func {
@@ -149,6 +155,50 @@ func TestExhaustive(t *testing.T) {
 	ev.Note("exhaustive over alphabet %q up to length %d", string(alphabet), maxLen)
 }
 
+// TestExhBoundaries: long strings with few specials placed around power-of-two
+// offsets (index arithmetic in an optimised copy loop may be width-limited).
+func TestExhBoundaries(t *testing.T) {
+	shard, shards := ev.Shard()
+	bounds := []int{255, 256, 4095, 4096, 32767, 32768, 65535, 65536, 65537, 131071, 131072}
+	n := 0
+	idx := 0
+	for _, B := range bounds {
+		for _, sp := range []byte(`<>&"'`) {
+			idx++
+			if idx%shards != shard {
+				continue
+			}
+			base := []byte(strings.Repeat("a", B+4))
+			try := func(pos ...int) bool {
+				b := append([]byte(nil), base...)
+				for _, p := range pos {
+					if p >= 0 && p < len(b) {
+						b[p] = sp
+					}
+				}
+				c := mk(string(b), "scriggo.HTMLEscape")
+				n++
+				if msg := judge(c); msg != "" {
+					if len(msg) > 300 {
+						msg = msg[:300] + "…"
+					}
+					ev.Fail(t, "C24", c, "length %d, specials at %v: %s", len(b), pos, msg)
+					return false
+				}
+				return true
+			}
+			for d := -2; d <= 3; d++ {
+				if !try(B+d) || !try(0, B+d) || !try(B-100, B+d) || !try(1, 2, 3, 4, 5, 6, 7, B+d) || !try(1, 2, 3, 4, 5, 6, 7, 8, B+d) || !try(B+d, B+d+1) {
+					return
+				}
+			}
+		}
+	}
+	ev.EvalN(n)
+	ev.LabelN("boundary_strings", n)
+	ev.NontrivialCount(n)
+}
+
 // TestPropRandom: random long strings over all byte values, biased to specials.
 func TestPropRandom(t *testing.T) {
 	special := []byte(`<>&"'`)
@@ -156,6 +206,15 @@ func TestPropRandom(t *testing.T) {
 		n := rapid.IntRange(0, 5000).Draw(t, "n")
 		if rapid.IntRange(0, 20).Draw(t, "big") == 0 {
 			n = rapid.IntRange(5000, 70000).Draw(t, "nbig")
+		}
+		if rapid.IntRange(0, 3).Draw(t, "sparse") == 0 {
+			// long string with a handful of specials at drawn offsets
+			n = rapid.IntRange(1, 200000).Draw(t, "nsparse")
+			b := []byte(strings.Repeat("x", n))
+			for k := rapid.IntRange(1, 12).Draw(t, "k"); k > 0; k-- {
+				b[rapid.IntRange(0, n-1).Draw(t, "pos")] = special[rapid.IntRange(0, 4).Draw(t, "spc")]
+			}
+			return string(b)
 		}
 		density := rapid.IntRange(0, 10).Draw(t, "density")
 		b := make([]byte, n)
